@@ -23,11 +23,11 @@ type hllHandle interface {
 
 type hllMem struct{ h *gostatix.HyperLogLog }
 
-func (x hllMem) Update(d []byte) error                { x.h.Update(d); return nil }
-func (x hllMem) Count(c, r bool) (uint64, error)      { return x.h.Count(c, r), nil }
-func (x hllMem) Merge(o hllHandle) error              { return x.h.Merge(o.(hllMem).h) }
-func (x hllMem) Equals(o hllHandle) (bool, error)     { return x.h.Equals(o.(hllMem).h), nil }
-func (x hllMem) Export() ([]byte, error)              { return x.h.Export() }
+func (x hllMem) Update(d []byte) error            { x.h.Update(d); return nil }
+func (x hllMem) Count(c, r bool) (uint64, error)  { return x.h.Count(c, r), nil }
+func (x hllMem) Merge(o hllHandle) error          { return x.h.Merge(o.(hllMem).h) }
+func (x hllMem) Equals(o hllHandle) (bool, error) { return x.h.Equals(o.(hllMem).h), nil }
+func (x hllMem) Export() ([]byte, error)          { return x.h.Export() }
 
 type hllRedis struct{ h *gostatix.HyperLogLogRedis }
 
@@ -96,7 +96,9 @@ func learnHLL(m uint64, redis bool, e []byte) (hllIV, error) {
 	return iv, nil
 }
 
-func hllFlags() [][2]bool { return [][2]bool{{false, false}, {false, true}, {true, false}, {true, true}} }
+func hllFlags() [][2]bool {
+	return [][2]bool{{false, false}, {false, true}, {true, false}, {true, true}}
+}
 
 func suiteHLL(c *Ctx) {
 	c.rep.Rule = "case = (m, backend) x stream of elements (with duplicates) + a permutation + a split into two merged sketches; non-trivial = >=4 distinct elements, at least one duplicate and two elements sharing a register; distinct by (m, stream)"
